@@ -9,9 +9,11 @@
           message.getSecretString, message.getSecretStringWithMaxSize, message.GetClassAdRaw,
           message.GetClassAdRawBody, message.SkipClassAdRaw, message.getClassAdFromMessage,
           message.getClassAdFromMessageWithMaxSize, message.isTypeName,
-          stream.ReceiveFrameWithEnd, stream.ReceiveCompleteMessage, stream.readNextFrame,
+          stream.ReceiveFrameWithEnd, stream.ReceiveFrame, stream.GetSecret, stream.GetFile,
+          stream.ReceiveCompleteMessage, stream.readNextFrame,
           stream.StartMessageRead, stream.PrepareCryptoForSecret, stream.RestoreCryptoAfterSecret,
           security.receiveMessage, security.exchangeKey, security.getIDString, security.getToken,
+          security.kerberosReadRequest, security.getRawBytes (the optional raw fields of the token exchange),
           sharedport.readPassSockHeader
 
   What the meters count (each is observable on the implementation or bounded by a measurement):
@@ -437,6 +439,28 @@ def tlsRecv (s : St) : Res Bytes :=
     | (.error e, s2) => (.error e, s2)
     | (.ok len, s2) => if len < 0 then (.error .malformed, s2) else getBytes len s2
 
+/-- `Authenticator.kerberosReadRequest`: message code, length, then `GetBytes(length)` — the
+    buffer is sized by `GetBytes` only after that many bytes have arrived -/
+def krbRead (s : St) : Res Bytes :=
+  match getInt s with
+  | (.error e, s1) => (.error e, s1)
+  | (.ok _, s1) =>
+    match getInt s1 with
+    | (.error e, s2) => (.error e, s2)
+    | (.ok len, s2) => if len < 0 then (.error .malformed, s2) else getBytes len s2
+
+/-- one optional raw field of the token exchange's error-state branches (`fieldLen`, then
+    `getRawBytes(fieldLen)` when positive) -/
+def rawField (s : St) : Res Unit :=
+  match getInt s with
+  | (.error e, s1) => (.error e, s1)
+  | (.ok len, s1) =>
+    if len > 0 then
+      match getBytes len s1 with
+      | (.error e, s2) => (.error e, s2)
+      | (.ok _, s2) => (.ok (), s2)
+    else (.ok (), s1)
+
 /-- four integers read and ignored -/
 def skipInts : Nat → St → Res Unit
   | 0, s => (.ok (), s)
@@ -545,6 +569,66 @@ def framesOf (encOn : Bool) : Nat → Bytes → List OutFrame
     match recvFrame encOn w {} with
     | (.error _, _) => []
     | (.ok (flag, p, rest), _) => (p, flag != 0) :: framesOf encOn fuel rest
+
+/-! ## the frame reader WITHOUT end flag and its two callers (stream.ReceiveFrame, GetSecret, GetFile) -/
+
+/-- `ReceiveFrame`: the same header checks in the same order as `ReceiveFrameWithEnd` (length against
+    `MaxMessageSize` BEFORE the payload buffer is sized, end flag ≤ 10, empty frame refused on an
+    encrypting stream); the end flag is dropped. Result: (payload, rest of the wire). -/
+def recvFrameNE (encOn : Bool) (w : Bytes) (m : WMeter) : Except Err (Bytes × Bytes) × WMeter :=
+  if !lenGe w headerSize then (.error .eof, m)
+  else
+    let flag := (w.take 1).headD 0
+    let len := beVal ((w.drop 1).take 4)
+    let m1 := { m with frames := m.frames + 1 }
+    if len > maxMessageSize then (.error .tooLarge, m1)
+    else if flag.toNat > 10 then (.error .badFlag, m1)
+    else if len = 0 then
+      if encOn then (.error .plainOnKeyed, m1) else (.ok ([], w.drop headerSize), m1)
+    else
+      let m2 := { m1 with alloc := m1.alloc + len }
+      let body := w.drop headerSize
+      if !lenGe body len then (.error .eof, m2)
+      else (.ok (body.take len, body.drop len), m2)
+
+/-- `Stream.GetSecret`: crypto is switched on for the frame when a key exists (`key`), one
+    `ReceiveFrame`, one trailing NUL removed -/
+def getSecretW (key encOn : Bool) (w : Bytes) (m : WMeter) : Except Err (Bytes × Bytes) × WMeter :=
+  match recvFrameNE (encOn || key) w m with
+  | (.error e, m1) => (.error e, m1)
+  | (.ok (p, rest), m1) => (.ok (stripTrailingNul p, rest), m1)
+
+/-- the chunk loop of `GetFile` (`for totalReceived < fileSize`): every round takes one frame, i.e. at
+    least 5 wire bytes — the fuel. Result: (bytes written to the file, rest of the wire). -/
+def fileChunks (encOn : Bool) (size : Int) : Nat → Nat → Bytes → WMeter → Except Err (Nat × Bytes) × WMeter
+  | 0, _, _, m => (.error .state, m)                  -- not reached: fuel = |w| / 5 + 1
+  | fuel + 1, total, w, m =>
+    if (total : Int) < size then
+      match recvFrameNE encOn w m with
+      | (.error e, m1) => (.error e, m1)
+      | (.ok (p, rest), m1) => fileChunks encOn size fuel (total + p.length) rest m1
+    else (.ok (total, w), m)
+
+def eofMarker : Nat := 666
+
+/-- `Stream.GetFile`: an 8-byte size frame (a signed 64-bit integer chosen by the peer), chunk
+    frames until that many bytes were written, a 4-byte frame holding 666. The file itself
+    (`os.Create`, `Write`) is an effect outside the model; what is written is the chunks' bytes. -/
+def getFile (encOn : Bool) (w : Bytes) (m : WMeter) : Except Err (Nat × Bytes) × WMeter :=
+  match recvFrameNE encOn w m with
+  | (.error e, m1) => (.error e, m1)
+  | (.ok (p, rest), m1) =>
+    if p.length ≠ 8 then (.error .malformed, m1)
+    else
+      match fileChunks encOn (ofU64 (beVal p)) (wireFuel rest) 0 rest m1 with
+      | (.error e, m2) => (.error e, m2)
+      | (.ok (total, rest2), m2) =>
+        match recvFrameNE encOn rest2 m2 with
+        | (.error e, m3) => (.error e, m3)
+        | (.ok (q, rest3), m3) =>
+          if q.length ≠ 4 then (.error .malformed, m3)
+          else if beVal q ≠ eofMarker then (.error .malformed, m3)
+          else (.ok (total, rest3), m3)
 
 /-! ## shared-port hand-off header -/
 
